@@ -95,6 +95,12 @@ pub fn generate(rng: &mut Rng, tier: &str, shard: usize, nshards: usize, out: &m
     let thorough = tier == "thorough";
     let mut n = 0usize;
     let mut emit = |line: String, n: &mut usize| { *n += 1; if *n % nshards == shard { out(line); } };
+    // 0. (thorough, and the searches that run at thorough size) the first bit length at which the f64 digit
+    //    estimate exceeds floor(log10 2^bits): 146_964_308 (defect F15: get_rounding_term(2^146964307) was 1)
+    if thorough {
+        emit("C18\tdigitsbits\t146964308\tlo".to_string(), &mut n);
+        emit("C18\tdigitsbits\t146964308\thi".to_string(), &mut n);
+    }
     // 1. every power of ten 10^k, 10^k - 1, 10^k + 1 for k in 0..=5000: digit counting and power construction
     let kmax = 5000u64;
     let kstep = if thorough { 1 } else { 1 };
